@@ -198,10 +198,19 @@ func (t *terminal) SendKey(ev KeyEvent) (int, error) {
 
 func (t *terminal) encodeKey(ev KeyEvent) []byte {
 	flags := t.keyboardFlags()
+	release := normalizeEventType(ev.Event) == KeyRelease
+	if release && flags&int(KbdReportEvents) == 0 {
+		// Release events are only reported when the application asked for them.
+		return nil
+	}
 	if flags != 0 {
 		if seq := t.encodeKittyKey(ev, flags); seq != nil {
 			return seq
 		}
+	}
+	if release {
+		// Keys that keep their legacy encoding have no release form.
+		return nil
 	}
 	return t.encodeLegacyKey(ev)
 }
